@@ -168,7 +168,27 @@ def run(pid, kspec, repo, workdir, tier, seed):
                 if not rr.get('confirmed'):
                     # the counterexample does not reproduce on the real code: do not report it as an input
                     f['failing_input'] = None
-    return {'unit': 'kani', 'backend': 'kani+cbmc', 'harnesses': harnesses, 'failures': failures,
+    # hardware grid (bounded stand-in): CBMC's float model canonicalises NaN results, the hardware does not
+    grid = None
+    if kspec.get('hw_grid', True):
+        ok_names = [h['name'] for h in harnesses if h['status'] == 'SUCCESS']
+        if ok_names:
+            grid = hardware_grid(sets, ok_names, repo, workdir)
+            for g in grid['failures']:
+                h = [x for x in harnesses if x['name'] == g['harness']][0]
+                fi = {'harness': g['harness'], 'set': h['set'], 'concrete_vals': g['vals'], 'as_text': g['as_text']}
+                f = {'unit': 'kani', 'fn': g['harness'], 'clause': g['harness'] + '@hardware-grid',
+                     'message': 'assertion fails on the compiled code for a value of the edge grid: ' + g['panic'],
+                     'obligation': 'kani::%s::%s@hardware-grid' % (h['set'], g['harness']), 'safety': False, 'text': h['doc'],
+                     'rendered': g['panic'], 'set': h['set'], 'failing_input': fi}
+                rr = replay_vals(fi, repo, workdir)
+                f['replay_result'] = rr
+                if rr.get('confirmed'):
+                    failures.append(f)
+                else:
+                    raise Undecided('hardware grid: failure of %s did not replay (%s)' % (g['harness'], rr.get('why')))
+    return {'unit': 'kani', 'backend': 'kani+cbmc', 'harnesses': harnesses, 'failures': failures, 'hw_grid': (
+            {k: grid[k] for k in ('runs', 'per_harness', 'values_per_draw', 'wall_s', 'cmd')} if grid else None),
             'functions': [], 'named_clauses': [], 'assumptions': kspec.get('assumptions', []), 'wall_s': round(wall, 2),
             'smt_ms': int(1000 * sum(h['time_s'] or 0 for h in harnesses)),
             'cmd': 'CARGO_NET_OFFLINE=true cargo kani --output-format terse -j 8 %s --harness <each> (scratch copy of /repo + kani/%s.rs)' % (' '.join(kspec.get('flags', [])), ','.join(sets))}
@@ -193,6 +213,125 @@ pub mod kani {
     pub(crate) use cover;
 }
 '''
+
+
+GRID_SHIM = r'''
+#[cfg(test)]
+#[allow(dead_code, unused_macros, unused_imports)]
+pub mod kani {
+    use std::cell::RefCell;
+    // depth-first enumeration of every combination of edge values; the number of draws is discovered while running
+    thread_local! { pub static COMBO: RefCell<Vec<(usize, usize)>> = RefCell::new(Vec::new());
+                    pub static POS: RefCell<usize> = RefCell::new(0);
+                    pub static LOG: RefCell<Vec<(Vec<u8>, String)>> = RefCell::new(Vec::new()); }
+    pub const F64S: [u64; 20] = [0, 0x8000000000000000, 0x3ff0000000000000, 0xbff0000000000000, 0x3ff8000000000000,
+        0x7ff0000000000000, 0xfff0000000000000, 0x7ff8000000000000, 0x7ff8000000000001, 0xfff8000000000000, 0x7ff0000000000001,
+        0xfff4000000000000, 0x0010000000000000, 0x0000000000000001, 0x7fefffffffffffff, 0x4340000000000000, 0x4340000000000001,
+        0x43e0000000000000, 0xc3e0000000000000, 0x8000000000000001];
+    pub const I64S: [i64; 10] = [0, 1, -1, 2, i64::MAX, i64::MIN, 9007199254740992, 9007199254740993, -9007199254740993, i64::MAX - 1];
+    fn pick(n: usize) -> usize {
+        let p = POS.with(|p| { let v = *p.borrow(); *p.borrow_mut() = v + 1; v });
+        COMBO.with(|c| { let mut c = c.borrow_mut(); if p >= c.len() { c.push((0, n)); } c[p].0 })
+    }
+    pub trait Arbitrary { fn grid() -> Self; }
+    fn log(b: Vec<u8>, t: String) { LOG.with(|l| l.borrow_mut().push((b, t))); }
+    impl Arbitrary for f64 { fn grid() -> Self { let v = f64::from_bits(F64S[pick(F64S.len())]); log(v.to_le_bytes().to_vec(), format!("{:?} (bits {:#018x})", v, v.to_bits())); v } }
+    impl Arbitrary for f32 { fn grid() -> Self { let v = f64::from_bits(F64S[pick(F64S.len())]) as f32; log(v.to_le_bytes().to_vec(), format!("{:?}", v)); v } }
+    impl Arbitrary for bool { fn grid() -> Self { let v = pick(2) == 1; log(vec![v as u8], format!("{}", v)); v } }
+    macro_rules! int { ($($t:ty),*) => { $( impl Arbitrary for $t { fn grid() -> Self { let v = I64S[pick(I64S.len())] as $t; log(v.to_le_bytes().to_vec(), format!("{}", v)); v } } )* } }
+    int!(u8, u16, u32, u64, usize, i8, i16, i32, i64, isize);
+    pub fn any<T: Arbitrary>() -> T { T::grid() }
+    pub struct AssumeViolated;
+    pub fn assume(c: bool) { if !c { std::panic::resume_unwind(Box::new(AssumeViolated)); } }
+    macro_rules! cover { ($($t:tt)*) => {}; }
+    pub(crate) use cover;
+    /// runs `h` on every combination; returns (runs, first failure as (values, texts, panic message))
+    pub fn enumerate(h: fn()) -> (u64, Option<(Vec<Vec<u8>>, Vec<String>, String)>) {
+        COMBO.with(|c| c.borrow_mut().clear());
+        let mut runs = 0u64;
+        loop {
+            POS.with(|p| *p.borrow_mut() = 0);
+            LOG.with(|l| l.borrow_mut().clear());
+            let r = std::panic::catch_unwind(h);
+            runs += 1;
+            if let Err(e) = r {
+                if !e.is::<AssumeViolated>() {
+                    let msg = if let Some(s) = e.downcast_ref::<String>() { s.clone() } else if let Some(s) = e.downcast_ref::<&str>() { s.to_string() } else { "panic".to_string() };
+                    let (vals, texts) = LOG.with(|l| (l.borrow().iter().map(|x| x.0.clone()).collect(), l.borrow().iter().map(|x| x.1.clone()).collect()));
+                    return (runs, Some((vals, texts, msg)));
+                }
+            }
+            // next combination: drop the draws that were not reached, then increment like an odometer
+            let used = POS.with(|p| *p.borrow());
+            let done = COMBO.with(|c| {
+                let mut c = c.borrow_mut();
+                c.truncate(used);
+                loop {
+                    match c.last_mut() {
+                        None => return true,
+                        Some(last) => { last.0 += 1; if last.0 < last.1 { return false; } }
+                    }
+                    c.pop();
+                }
+            });
+            if done { return (runs, None); }
+        }
+    }
+}
+'''
+
+
+def hardware_grid(sets, names, repo, workdir):
+    """Bounded stand-in next to the Kani proof: every harness that Kani discharged is also EXECUTED on the real build
+    for every combination of a fixed grid of edge values (20 f64 bit patterns incl. NaN payloads / signed zeros /
+    subnormals / 2^53 / 2^63, 10 integers, both booleans).  CBMC's floating-point model returns one canonical NaN from
+    arithmetic; the hardware keeps payloads, so a law that breaks only there is invisible to CBMC."""
+    crate = make_scratch(repo, workdir, [], name='grid_crate')
+    body = ''
+    for s in sets:
+        src = open(os.path.join(HERE, 'kani', s + '.rs')).read()
+        src = src.replace('#[kani::proof]', '#[allow(dead_code)]')
+        src = re.sub(r'#\[kani::unwind\(\d+\)\]', '', src)
+        src = re.sub(r'#\[kani::stub\([^\]]*\)\]', '', src)
+        src = src.replace('kani::', 'crate::kani::')
+        body += src
+    test = '\n#[test]\nfn verif_grid() {\n    std::panic::set_hook(Box::new(|_| {}));\n'
+    for n in names:
+        test += ('    { let (runs, f) = crate::kani::enumerate(%s); match f { None => println!("GRID %s runs={} ok", runs),\n'
+                 '        Some((v, t, m)) => println!("GRID %s runs={} FAIL vals={:?} texts={:?} msg={:?}", runs, v, t, m) } }\n') % (n, n, n)
+    test += '}\n'
+    with open(os.path.join(crate, 'src', 'verif_grid.rs'), 'w') as f:
+        f.write(body + test)
+    with open(os.path.join(crate, 'src', 'lib.rs'), 'a') as f:
+        f.write(GRID_SHIM + '\n#[cfg(test)]\nmod verif_grid;\n')
+    env = dict(os.environ)
+    env['CARGO_NET_OFFLINE'] = 'true'
+    env['CARGO_TARGET_DIR'] = os.path.join(repo, 'target')
+    t0 = time.time()
+    p = subprocess.run(['cargo', 'test', '--offline', '--lib', 'verif_grid::verif_grid', '--', '--exact', '--nocapture'],
+                       cwd=crate, env=env, stdout=subprocess.PIPE, stderr=subprocess.STDOUT, text=True, timeout=1500)
+    out = p.stdout
+    shutil.rmtree(crate, ignore_errors=True)
+    per, fails, total = {}, [], 0
+    for ln in out.split('\n'):
+        m = re.match(r'GRID (\w+) runs=(\d+) (ok|FAIL)(.*)$', ln.strip())
+        if not m:
+            continue
+        per[m.group(1)] = int(m.group(2))
+        total += int(m.group(2))
+        if m.group(3) == 'FAIL':
+            mm = re.search(r'vals=(\[.*?\]) texts=(\[.*?\]) msg=(".*")$', m.group(4))
+            vals = json.loads(mm.group(1))
+            texts = re.findall(r'"((?:[^"\\]|\\.)*)"', mm.group(2))
+            fails.append({'harness': m.group(1), 'vals': vals, 'as_text': texts, 'panic': mm.group(3)})
+    missing = [n for n in names if n not in per]
+    if missing:
+        raise Undecided('hardware grid: no result for %s: %s' % (missing[:4], out[-800:].replace('\n', ' | ')))
+    if any(v == 0 for v in per.values()):
+        raise Undecided('hardware grid: a harness ran zero combinations (vacuous)')
+    return {'runs': total, 'per_harness': per, 'failures': fails, 'values_per_draw': {'f64': 20, 'integers': 10, 'bool': 2},
+            'wall_s': round(time.time() - t0, 2),
+            'cmd': 'cargo test --lib verif_grid (scratch copy of /repo + kani/<set>.rs + enumeration shim)'}
 
 
 def replay_vals(fi, repo, workdir):
